@@ -199,6 +199,15 @@ func Touch(name string, write bool) {
 	if s == nil {
 		return
 	}
+	// A read of a plain field that nobody has written in this execution is independent of
+	// everything that happened so far: it is not a scheduling point (the writer, if one comes
+	// later, can still be ordered before this read at the reader's previous point).
+	if !write && s.fields[name] == nil {
+		if s.aborting {
+			panic(kill)
+		}
+		return
+	}
 	s.yield(false)
 	if write {
 		o := s.fields[name]
